@@ -70,6 +70,7 @@ type ScenarioOutcome struct {
 	Exit         int      `json:"exit"`
 	Signal       string   `json:"signal,omitempty"`
 	Output       string   `json:"output"`
+	PosLines     []int    `json:"pos_lines,omitempty"` // distinct line numbers of position-like patterns in the complete output
 	Argv         []string `json:"argv"`
 	Cmdline      []string `json:"cmdline"`
 	DstPre       string   `json:"dst_pre"`
@@ -647,7 +648,7 @@ func (s *Scenario) expect(imageClass string, nlines int, fired int) expectation 
 	case "none", "src", "d-only", "d-src":
 		e.Pin, e.Why = "16", "R1: fewer than two positionals (the -d switch is not a file argument)"
 		return e
-	case "src-dst":
+	case "src-dst", "d-src-dst": // -d only adds logging: the same contract applies
 	case "src-dst-dashlst":
 	case "src-dst-lst":
 		if s.LstKind != "ok" && s.LstKind != "same_as_dst" && s.LstKind != "existing" && s.LstKind != "same_as_src" {
@@ -756,8 +757,7 @@ func judge(s *Scenario, e expectation, o *ScenarioOutcome, image []byte, imageCl
 			break // the message went to a closed / full stdout: nothing to read the position from
 		}
 		okPos := false
-		for _, m := range posRe.FindAllStringSubmatch(o.Output, -1) {
-			ln, _ := strconv.Atoi(m[1] + m[2] + m[3])
+		for _, ln := range o.PosLines {
 			if ln >= 1 && ln <= e.NLines+1 {
 				okPos = true
 				break
@@ -765,8 +765,8 @@ func judge(s *Scenario, e expectation, o *ScenarioOutcome, image []byte, imageCl
 		}
 		if okPos && e.ErrLine > 0 { // comments never move a statement to another line: the line must be the parser's
 			same := false
-			for _, m := range posRe.FindAllStringSubmatch(o.Output, -1) {
-				if ln, _ := strconv.Atoi(m[1] + m[2] + m[3]); ln == e.ErrLine {
+			for _, ln := range o.PosLines {
+				if ln == e.ErrLine {
 					same = true
 					break
 				}
@@ -1028,7 +1028,22 @@ func (c *c19Ctx) execute(s *Scenario, keepDir bool) (out *ScenarioOutcome, viol 
 	}
 	pr, fired, flines := run(s.Fault)
 	out.Exit, out.Signal = pr.Exit, pr.Signal
-	out.Output = clip(append(append([]byte{}, pr.Stdout...), pr.Stderr...), 1500)
+	// stdout then stderr; for long outputs (-d prints a parser trace) keep the head and the tail:
+	// diagnostics such as the parse error are printed last
+	full := append(append([]byte{}, pr.Stdout...), pr.Stderr...)
+	if len(pr.Stdout) > 2400 {
+		full = append(append(append([]byte{}, pr.Stdout[:600]...), []byte("\n...[clipped]...\n")...), pr.Stdout[len(pr.Stdout)-1500:]...)
+		full = append(full, pr.Stderr...)
+	}
+	out.Output = clip(full, 4000)
+	// positions are looked for in the complete output (the message can be longer than the clip)
+	seenLn := map[int]bool{}
+	for _, m := range posRe.FindAllSubmatch(append(append([]byte{}, pr.Stdout...), pr.Stderr...), -1) {
+		if ln, err := strconv.Atoi(string(m[1]) + string(m[2]) + string(m[3])); err == nil && !seenLn[ln] && len(out.PosLines) < 4000 {
+			seenLn[ln] = true
+			out.PosLines = append(out.PosLines, ln)
+		}
+	}
 	out.FaultFired, out.FaultLines = fired, flines
 	if s.Fault != nil && (s.Fault.Kind == "fsize" || s.Fault.Kind == "nofile") {
 		// an rlimit "fires" when the outcome differs from plain success
